@@ -6,7 +6,6 @@ from uuid import uuid4
 
 from amqpstorm.base import IDLE_WAIT
 from amqpstorm.exception import AMQPChannelError
-from amqpstorm.exception import AMQPError
 from amqpstorm.exception import AMQPMessageError
 
 
@@ -138,21 +137,14 @@ class Rpc(object):
                     connection_adapter.check_for_errors()
                 except AMQPMessageError as why:
                     # A returned message neither answers nor cancels the
-                    # request: its reply is still on its way.
+                    # request: it is reported by the operation that follows.
                     returned.append(why)
                 if time.time() - start_time > self._timeout:
                     self._raise_rpc_timeout_error(uuid)
                 time.sleep(IDLE_WAIT)
-        except AMQPError:
+        finally:
             if returned:
                 connection_adapter.exceptions[0:0] = returned
-            raise
-        if returned:
-            # The reply is in: report the returned message now, and any
-            # further ones through the calls that follow.
-            connection_adapter.exceptions[0:0] = returned[1:]
-            self.remove(uuid)
-            raise returned[0]
 
     def _raise_rpc_timeout_error(self, uuid):
         """Gather information and raise an Rpc exception.
